@@ -198,7 +198,7 @@ func Build(specs []GenSpec) []gengo.Generator {
 			case "bad-syntax":
 				render(c, bh, name)
 				if idx == bh.At {
-					c.RenderT("func broken( {\n")
+					c.RenderT([]string{"func broken( {\n", "var s = \"unterminated\n", "}\n", "type T struct {\n", "var x = 08\n", "func f() { return }}\n"}[bh.At%6])
 				}
 			case "kill":
 				render(c, bh, name)
